@@ -69,7 +69,8 @@ func dump(ms *yang.Modules) string {
 	return b.String()
 }
 
-var posRE = regexp.MustCompile(`^([^:\s]+\.yang):(\d+):(\d+):`)
+// a position is file:line:col, or "line L:C" for a text that was handed over without a name (Statement.Location)
+var posRE = regexp.MustCompile(`^(?:([^:\s]+\.yang):|line )(\d+):(\d+):`)
 
 type result struct {
 	parseErrs []string
@@ -869,10 +870,14 @@ func gen(t *rapid.T) Case {
 	if !c.CLI && rapid.IntRange(0, 7).Draw(t, "one-source-name") == 0 {
 		// the caller hands every text over under one name (Modules.Parse takes any string): positions
 		// in different texts then compare equal, and nothing but the texts themselves may decide an order
+		name := rapid.SampledFrom([]string{"input.yang", ""}).Draw(t, "the-one-name")
 		for i := range c.Sources {
-			c.Sources[i].Name = "input.yang"
+			c.Sources[i].Name = name
 		}
 		c.Features = append(c.Features, "one-source-name")
+		if name == "" {
+			c.Features = append(c.Features, "no-source-name")
+		}
 	}
 	return c
 }
